@@ -292,9 +292,16 @@ Export == pc = "done" => PrintT(<<"CASE", ToJson([ctor |-> arg.ctor, name |-> ar
 StemsQ == {"test", "http://h/api"}
 TokQ == {"test", "http://h/api", "osm", "osh", "osc", "pbf", "opl", "o5c", "gz", "bz2", "foo", ""}
 TokT == TokQ \cup {"xml", "json", "o5m", "debug", "blackhole", "ids", "-", "http", "https://h/x", "ftp://h/c", "http:x", "https"}
+TokM == TokQ \cup {"xml", "-", "http"}                   \* export, thorough
 FTokQ == {"osm", "osc", "pbf", "o5c", "gz", "foo", ""}
 FTokT == Keywords \cup {"foo", ""}
 NamesForFs == {<<>>, <<"test">>, <<"test", "osh", "pbf", "gz">>, <<"http://h/api">>, <<"-">>, <<"http">>}
+NamesForFsFew == {<<>>, <<"test", "osh", "pbf", "gz">>, <<"http://h/api">>}
+OptsOne == {KV("history", VFalse)}
+OptsTwo == {KV("history", VFalse), KV("xml_change_format", VFalse), KeyOnly("")}
+NamesForFsMid == {<<>>, <<"test", "osh", "pbf", "gz">>, <<"http://h/api">>, <<"http">>}
+OptsEight == {KV("history", VTrue), KV("history", VFalse), KV("pbf_dense_nodes", <<"no">>), KV("xml_change_format", VFalse),
+              KV("add_metadata", <<"version", "timestamp">>), KV("foo", <<"a=b">>), KeyOnly("history"), KeyOnly("")}
 NamesForOpts == {<<"test", "osm">>, <<"http://h/api", "osc">>}
 OptsFew == {KV("history", VTrue), KV("history", VFalse), KeyOnly("history"), KV("xml_change_format", VFalse), KeyOnly("")}
 MdVals == {<<"all">>, <<"none">>, <<"version", "timestamp">>, <<"version", "", "user">>, <<"uid", "foo">>, <<"">>, <<"yes">>, <<"no">>}
